@@ -181,29 +181,32 @@ class GlsaDirSet(GenericEquality):
             base = base[:-1]
         base = cpv.VersionedCPV(f"cat/pkg-{base}")
 
+        restrictions = []
         if glob:
             if op != "eq":
                 raise ValueError(f"glob cannot be used with {op} ops")
-            return packages.PackageRestriction(
-                "fullver", values.StrGlobMatch(base.fullver)
+            restrictions.append(
+                packages.PackageRestriction(
+                    "fullver", values.StrGlobMatch(base.fullver)
+                )
             )
-        restrictions = []
-        if op.startswith("r"):
-            if not base.revision:
-                if op == "rlt":  # rlt -r0 can never match
-                    # this is a non-range.
-                    raise ValueError(
-                        f"range {op} version {node.text.strip()} is a guaranteed empty set"
-                    )
-                elif op == "rle":  # rle -r0 -> = -r0
-                    return atom_restricts.VersionMatch("=", base.version, negate=negate)
-                elif op == "rge":  # rge -r0 -> ~
-                    return atom_restricts.VersionMatch("~", base.version, negate=negate)
-            # rgt -r0 passes through to regular ~ + >
-            restrictions.append(atom_restricts.VersionMatch("~", base.version))
-        restrictions.append(
-            atom_restricts.VersionMatch(restrict, base.version, rev=base.revision),
-        )
+        elif op.startswith("r") and not base.revision and op != "rgt":
+            if op == "rlt":  # rlt -r0 can never match
+                # this is a non-range.
+                raise ValueError(
+                    f"range {op} version {node.text.strip()} is a guaranteed empty set"
+                )
+            elif op == "rle":  # rle -r0 -> = -r0
+                restrictions.append(atom_restricts.VersionMatch("=", base.version))
+            else:  # rge -r0 -> ~
+                restrictions.append(atom_restricts.VersionMatch("~", base.version))
+        else:
+            if op.startswith("r"):
+                # rgt -r0 passes through to regular ~ + >
+                restrictions.append(atom_restricts.VersionMatch("~", base.version))
+            restrictions.append(
+                atom_restricts.VersionMatch(restrict, base.version, rev=base.revision),
+            )
         if slot:
             restrictions.append(atom_restricts.SlotDep(slot))
         return packages.AndRestriction(*restrictions, negate=negate)
